@@ -117,12 +117,86 @@ def body_ordinal(rec, c):
     rec.check(not (allA & allD), "C07:streams-independent-of-seed", f"{len(allA & allD)} streams in common for seeds {spec['seed']} and {spec2['seed']}")
 
 
+# ------------------------------------------------- engine classes: stochastic integrators draw from the job stream
+@st.composite
+def engine_cases(draw):
+    return {"engine": draw(st.sampled_from(["turtlemd", "turtlemd-userseed", "ase", "lammps"])), "seed": draw(st.integers(0, 2**31)), "gseed": draw(st.integers(0, 2**31)),
+            "n": draw(st.integers(2, 3)), "maxlen": draw(st.integers(4, 9)), "subcycles": draw(st.integers(1, 2))}
+
+
+def body_engine(rec, c):
+    import os
+    import random
+    import sys
+
+    import numpy as np
+
+    from infretis.classes.path import Path
+    from vlib import enginekit as ek
+    from vlib import isolate
+
+    root = isolate.mkscratch("c07e_")
+    try:
+        n = c["n"]
+        pos = [[5.0 + 3.0 * i, 6.0, 7.0] for i in range(n)]
+        vel = [[0.3 * (i + 1), -0.2, 0.1] for i in range(n)]
+        name = c["engine"]
+        if name.startswith("turtlemd"):
+            eng = ek.make_turtlemd(root, [1.0, 2.0, 3.0][:n], pos, temperature=1.0, integrator="LangevinInertia", subcycles=c["subcycles"], timestep=0.01,
+                                   user_seed=70 if name.endswith("userseed") else None)
+            from infretis.classes.engines.engineparts import write_xyz_trajectory
+
+            src = os.path.join(root, "start.xyz")
+            write_xyz_trajectory(src, np.array(pos), np.array(vel), ["Ar"] * n, np.array([50.0] * 3), append=False)
+            read = lambda p: open(p).read()  # noqa: E731
+        elif name == "ase":
+            eng = ek.make_ase(root, temperature=300.0, integrator="langevin", subcycles=c["subcycles"], timestep=1.0)
+            src = os.path.join(root, "start.traj")
+            ek.ase_frame(src, ["H", "O", "C"][:n], [1.0, 16.0, 12.0][:n], pos, (np.array(vel) * 0.01).tolist())
+
+            def read(p):
+                from ase.io import read as aread
+
+                return [(a.positions.tolist(), a.get_velocities().tolist()) for a in aread(p, index=":")]
+        else:
+            fake = f"{sys.executable} {os.path.join(ek.FAKEBIN, 'lmp')}"
+            eng = ek.make_lammps(root, [1.0, 2.5], [1 + (i % 2) for i in range(n)], pos, lmp=fake, subcycles=c["subcycles"], timestep=0.1, sleep=0.001)
+            src = os.path.join(root, "start.lammpstrj")
+            with open(src, "w") as fh:
+                fh.write(ek.lammps_frame_text([1 + (i % 2) for i in range(n)], pos, vel, [(0.0, 30.0)] * 3, trailing_id=True))
+            read = lambda p: open(os.path.join(eng.exe_dir, "seed_used.txt")).read().split()[-1]  # noqa: E731
+        from infretis.classes.orderparameter import Distance
+
+        eng.order_function = Distance((0, 1), periodic=True)
+        ens = {"interfaces": (-1e9, 0.0, 1e9), "ens_name": "007"}
+
+        def run(stream_seed, global_seed):
+            np.random.seed(global_seed % 2**32)
+            random.seed(global_seed)
+            eng.rgen = np.random.default_rng(stream_seed)
+            g0 = (np.random.get_state()[1][:6].tolist(), random.getstate()[1][:6])
+            path = Path(maxlen=c["maxlen"])
+            eng.propagate(path, ens, ek.system_for(src, 0), reverse=False)
+            g1 = (np.random.get_state()[1][:6].tolist(), random.getstate()[1][:6])
+            return read(path.phasepoints[0].config[0]), g0 == g1
+
+        a, clean_a = run(c["seed"], c["gseed"])
+        b, clean_b = run(c["seed"], c["gseed"] + 17)
+        d, _ = run(c["seed"] + 1, c["gseed"])
+        rec.case(key=c, nontrivial=True, classes=["engines", "engines:" + name], sample=c if len(rec.samples) < 1 else None)
+        rec.check(clean_a and clean_b, f"C07:{name}:stochastic-integrator-draws-from-a-global-generator", f"case={c}")
+        rec.check(a == b, f"C07:{name}:same-job-stream-different-trajectory", f"the trajectory / seed depends on something other than the job's engine stream; case={c}")
+        rec.check(a != d, f"C07:{name}:different-job-stream-same-trajectory", f"the integrator noise / seed handed to the MD program does not come from the job's engine stream; case={c}")
+    finally:
+        isolate.rmscratch(root)
+
+
 @st.composite
 def unique_cases(draw):
     return draw(hist.history_st(max_steps=36, max_segments=4, max_n=6, min_workers=1, kills=True))
 
 
-PARTS = {"unique": (unique_cases, body_unique), "ordinal": (ordinal_cases, body_ordinal)}
+PARTS = {"unique": (unique_cases, body_unique), "ordinal": (ordinal_cases, body_ordinal), "engines": (engine_cases, body_engine)}
 
 
 def run(ctx):
@@ -132,11 +206,14 @@ def run(ctx):
         "its ensembles, and the scheduler's stream. All must be pairwise distinct (a re-issued in-flight job only against its own earlier "
         "issue), distinct within a zero swap, distinct from the scheduler stream; numpy's and random's global generators must be untouched "
         "by every move. Differential: same seed with another completion order (W>1) or other clean restart points (W=1) gives the same "
-        "stream to the same job ordinal; another seed shares no stream. Non-trivial: a restart that re-issued >=1 job, or >=2 concurrent jobs."
+        "stream to the same job ordinal; another seed shares no stream. Engines: the same start point propagated with the same job stream under different global seeds "
+        "gives the identical trajectory (LAMMPS: the identical seed in run.inp), another job stream gives another one. Non-trivial: a restart that re-issued >=1 job, or >=2 concurrent jobs."
     )
-    ctx.assumptions = ["engine-class specific confinement (ASE, TurtleMD, LAMMPS, CP2K, GROMACS genvel) is exercised by the 'engines' part when built; the history part uses the plug-in engine"]
+    ctx.assumptions = ["velocity draws of CP2K/LAMMPS/GROMACS(genvel)/ASE/TurtleMD are checked for stream confinement in C16; the 'engines' part here covers the seeds/noise of the "
+                       "stochastic integrators (TurtleMD LangevinInertia incl. a stray user 'seed' setting, ASE Langevin, the seed handed to the LAMMPS program)"]
     run_property(ctx, "unique", unique_cases, body_unique, ctx.pick(700, 8000), shards=ctx.procs, shrink=not ctx.quick)
     run_property(ctx, "ordinal", ordinal_cases, body_ordinal, ctx.pick(200, 2500), shards=ctx.procs, shrink=not ctx.quick)
+    run_property(ctx, "engines", engine_cases, body_engine, ctx.pick(64, 640), shards=ctx.procs, shrink=not ctx.quick)
 
 
 def replay(ctx, data):
